@@ -35,22 +35,16 @@ Theorem C05_cg_model_is_textbook_cg prm f x0 junk :
   out_of_ref (cg_ref A P (p_maxiter prm) (p_tol prm) (p_abstol prm) (p_ns prm) f x0).
 Proof. exact (cg_model_is_ref Srt Seqb n A P A_len P_len A_lin prm f x0 junk). Qed.
 
-(* BiCGStab.
-   FULL STATEMENT (unproved):
-     length f = n -> length x0 = n -> linear_on n P ->
-     fst (bicgstab A P prm f x0 junk) =
-     out_of_ref (bicgstab_ref A P (p_left prm) (p_maxiter prm) (p_tol prm) (p_abstol prm)
-                              (p_ns prm) (p_ca prm) f x0).
-   The equality is checked on the implementation side for every generated case (C05.py stage 1:
-   implementation = bicgstab_ref, C01.py stage 1: implementation = model).  Proved here: the part
-   of the recurrence that defines the method's iterates -- both half steps keep the carried vector
-   equal to the (preconditioned) residual of the updated iterate. *)
-Hypothesis P_lin : linear_on n P.
-Theorem C05_bicgstab_recurrence_partial prm f x0 junk nr r w :
-  length f = n -> length x0 = n -> k_prologue norm_a prm f = Go nr ->
-  bicgstab A P prm f x0 junk = (KOk r, w) ->
-  k_res r = true_res norm_a A P (p_left prm) f (k_x r) / nr.
-Proof. exact (bicgstab_residual_truthful Srt Seqb n A P A_len P_len A_lin P_lin prm f x0 junk nr r w). Qed.
+(* BiCGStab, both preconditioning sides, check_after, breakdown (precondition throws = None):
+   the workspace model (first flag, rho1/rho2, axpbypcz with is_zero shortcuts, stale r after the
+   early exit) equals the textbook recurrence of van der Vorst, for all inputs and every maxiter.
+   No linearity of A or P is needed. *)
+Theorem C05_bicgstab_model_is_textbook_bicgstab prm f x0 junk :
+  length f = n -> length x0 = n ->
+  fst (bicgstab A P prm f x0 junk) =
+  out_of_ref (bicgstab_ref A P (p_left prm) (p_maxiter prm) (p_tol prm) (p_abstol prm)
+                           (p_ns prm) (p_ca prm) f x0).
+Proof. exact (bicgstab_model_is_ref Srt Seqb n A P A_len P_len prm f x0 junk). Qed.
 End Ring.
 
 Theorem C05_richardson_is_kfold_iteration_Qc n (A P : vec QcS -> vec QcS) prm f x0 junk nr r w :
@@ -68,6 +62,15 @@ Theorem C05_cg_model_is_textbook_cg_Qc n (A P : vec QcS -> vec QcS) prm f x0 jun
   out_of_ref (cg_ref A P (p_maxiter prm) (p_tol prm) (p_abstol prm) (p_ns prm) f x0).
 Proof. intros HA HP HL. exact (C05_cg_model_is_textbook_cg QcS QcS_ring QcS_eqb n A P HA HP HL prm f x0 junk). Qed.
 Print Assumptions C05_cg_model_is_textbook_cg_Qc.
+
+Theorem C05_bicgstab_model_is_textbook_bicgstab_Qc n (A P : vec QcS -> vec QcS) prm f x0 junk :
+  (forall v, length v = n -> length (A v) = n) -> (forall v, length v = n -> length (P v) = n) ->
+  length f = n -> length x0 = n ->
+  fst (bicgstab A P prm f x0 junk) =
+  out_of_ref (bicgstab_ref A P (p_left prm) (p_maxiter prm) (p_tol prm) (p_abstol prm)
+                           (p_ns prm) (p_ca prm) f x0).
+Proof. intros HA HP. exact (bicgstab_model_is_ref QcS_ring QcS_eqb n A P HA HP prm f x0 junk). Qed.
+Print Assumptions C05_bicgstab_model_is_textbook_bicgstab_Qc.
 
 Example C05_hypotheses_satisfiable :
   (forall v, length v = 3 -> length (diag_op [qc 2 1; qc 3 2; qc (-1) 4] v) = 3) /\
